@@ -60,6 +60,15 @@ pub broadcast axiom fn axiom_string_view_injective(a: String, b: String)
 pub broadcast axiom fn axiom_string_key_model()
     ensures #[trigger] obeys_key_model::<String>();
 
+/// `PartialEq for Arc<T>` compares the pointees with T's `eq` (std); uninterpreted for a general T, axiomatised for String
+pub uninterp spec fn pointee_eq<T: ?Sized>(a: &T, b: &T) -> bool;
+pub broadcast axiom fn axiom_pointee_eq_string(a: &String, b: &String)
+    ensures #[trigger] pointee_eq::<String>(a, b) <==> a@ == b@;
+pub assume_specification<T: ?Sized + PartialEq, A: Allocator>[ <Arc<T, A> as PartialEq>::ne ](a: &Arc<T, A>, b: &Arc<T, A>) -> (r: bool)
+    ensures r == !pointee_eq::<T>(&**a, &**b);
+pub assume_specification<T: ?Sized + PartialEq, A: Allocator>[ <Arc<T, A> as PartialEq>::eq ](a: &Arc<T, A>, b: &Arc<T, A>) -> (r: bool)
+    ensures r == pointee_eq::<T>(&**a, &**b);
+
 /// a str / String is determined by its characters
 pub broadcast axiom fn axiom_str_view_injective(a: &str, b: &str)
     ensures (#[trigger] a@ == #[trigger] b@) ==> a == b;
@@ -72,6 +81,7 @@ pub broadcast group group_std_extra {
     axiom_str_borrowed_value,
     axiom_string_view_injective,
     axiom_string_key_model,
+    axiom_pointee_eq_string,
 }
 
 } // verus!
